@@ -14,6 +14,7 @@ EXPLANATION = (
     "recorded for a local commit come from the worldline tip read in the same scheduler pass. That every single-field "
     "alteration is detected is NOT decided (collision resistance assumed)."
     ' Round 2: for every gate row the rejection RELATION (==, !=, <, ..) is the confirmed one and no new value test decides whether the gate runs (guard strength).'
+    ' A validation loop driven by `zip` is accompanied by a comparison of the two lengths.'
 )
 ASSUMPTIONS = ["BLAKE3 collision resistance", "the patch digest coverage is decided in C04.R4"]
 FLOOR = 70
